@@ -765,6 +765,18 @@ impl<'a> Rf<'a> {
                     }
                 }
             }
+            IterThen(parts, k) => {
+                // item sources run left to right, each from where the previous one stopped; their items are
+                // concatenated in order
+                let mut items = vec![];
+                let mut p = pos;
+                for part in parts {
+                    let (v, e) = self.ev(part, p, env)?;
+                    items.extend(v.into_items());
+                    p = e;
+                }
+                Ok((if *k == 0 { Val::List(items) } else { Val::Num(items.len() as u64) }, p))
+            }
             G::Rep(r) => {
                 if r.ctxb != 0 {
                     self.saw_ctx(g, &env.ctx);
